@@ -5,7 +5,10 @@
      qops ... : exact rationals (theorems in TDigestProofs.v / Properties_C17.v).
    The model follows the code statement by statement, including the branches that are dead for states reachable through
    the public API (tail formulas of get_rank / get_quantile) and the quirks (second guard of the greedy loop that is
-   always true, weights of the interpolation in get_quantile exactly as written).
+   always true, the final fall-through of get_quantile that averages a WEIGHT with max_).
+   Three defects found by this check are modelled AS REPAIRED (patches in /verif/fixes/17_*.patch): the swapped interpolation
+   weights in get_quantile, the missing clamp in weighted_average, get_CDF/get_PMF answering on an empty digest.  The
+   behaviour of the code as found is kept as variant definitions with `_refuted` theorems in Regression_tdigest.v.
    Modelling choices: std::stable_sort on the mean = stable insertion sort with the same `<` (any stable sort gives the same
    result when `<` is a strict weak order, i.e. no NaN mean); std::lower_bound / std::upper_bound = the usual halving
    binary search; uint64 weights are unbounded Z (no wrap-around). *)
@@ -216,7 +219,13 @@ Section Model.
     let s' := td_compress s in
     (s', rank_core (t_min s') (t_max s') (t_cents s') (t_cw s') v).
 
-  Definition weighted_average (x1 w1 x2 w2 : T) : T := div (add (mul x1 w1) (mul x2 w2)) (add w1 w2).
+  (* weighted_average, as REPAIRED by fixes/17_weighted_average_clamp.patch: the result is clamped to
+     [min(x1,x2), max(x1,x2)] as in the reference implementation (the unclamped form is kept in Regression_tdigest.v) *)
+  Definition weighted_average (x1 w1 x2 w2 : T) : T :=
+    let x := div (add (mul x1 w1) (mul x2 w2)) (add w1 w2) in
+    let lo := nmin x1 x2 in
+    let hi := nmax x1 x2 in
+    if ltb x lo then lo else if ltb hi x then hi else x.
 
   (* the interpolation loop of get_quantile over consecutive centroids; None = fell through *)
   Fixpoint q_loop (cs : list centroid) (weight wsf : T) : option T :=
@@ -232,7 +241,9 @@ Section Model.
           let right_weight := if r1 then nhalf else n0 in
           let w1 := sub (sub weight wsf) left_weight in
           let w2 := sub (sub (add wsf dw) weight) right_weight in
-          Some (weighted_average (c_mean ci) w1 (c_mean cj) w2)
+          (* REPAIRED by fixes/17_quantile_weights.patch: centroid i gets the distance to centroid i+1 and vice versa
+             (the code as found passed w1, w2 the other way round; kept in Regression_tdigest.v) *)
+          Some (weighted_average (c_mean ci) w2 (c_mean cj) w1)
         else q_loop t weight (add wsf dw)
     | _ => None
     end.
@@ -287,7 +298,10 @@ Section Model.
                 end
     end.
 
+  (* REPAIRED by fixes/17_empty_cdf.patch: an empty digest is refused up front (as found, the emptiness test lived only in
+     get_rank, so zero split points on an empty digest returned {1}) *)
   Definition td_cdf (s : td) (l : list T) : td * option (list T) :=
+    if td_is_empty s then (s, None) else
     if split_ok l then
       match ranks s l with
       | (s', Some rs) => (s', Some (rs ++ [n1]))
